@@ -60,7 +60,7 @@ def mirror(tr, exp):
     return None
 
 
-def run_agm(pid, tier, seed, fams, mutants, rule, assumptions, sample=None, replicas=1, write=True, level_lemma=False):
+def run_agm(pid, tier, seed, fams, mutants, rule, assumptions, sample=None, replicas=1, write=True, level_lemma=False, random_n=0):
     t0 = time.time()
     lemma = None
     if level_lemma:
@@ -92,6 +92,17 @@ def run_agm(pid, tier, seed, fams, mutants, rule, assumptions, sample=None, repl
             p["family"] = fam
             p["depth"] = depth
             cases.append(p)
+    if random_n:
+        # seeded random programs beyond the template families (several differentiations per body, derivative values used as points
+        # of other differentiations, try / if / call anywhere); screened in Python for 32-bit range, judged by TLC like all others
+        import agm_random
+        rp = agm_random.programs(seed, random_n)
+        for q in rp:
+            d = q["screen"]
+            cases.append({"prog": q["prog"], "family": "random", "depth": 3, "result": None, "log": None, "sched": [],
+                          "den": [{"k": "val", "v": d[1]} if d[0] == "val" else {"k": "exc"}]})
+        notes.append({"family": "random", "depth": 3, "programs_model_checked": 0, "programs_replayed": len(rp),
+                      "note": "generated by harness/agm_random.py from VERIF_SEED; the abstract machine and the oracle are evaluated on them by TLC during validation"})
     killed = []
     for fam, depth, sw in mutants:
         r = mc(fam, depth, only_result=True, **sw)
@@ -127,6 +138,8 @@ def run_agm(pid, tier, seed, fams, mutants, rule, assumptions, sample=None, repl
     # parallel_validate only returns ACCEPT ids; re-derive drift from the mirror (cheap, deterministic)
     for t in traces:
         e = exp_by_id[t["id"]]
+        if e["result"] is None:
+            continue
         for th, o in enumerate(t["obs"]):
             m = e["result"][th]
             same = (m["k"] == "exc" and o["k"] == "exc") or (m["k"] == "val" and o["k"] == "val" and o["v"] == m["v"])
@@ -157,7 +170,8 @@ def run_agm(pid, tier, seed, fams, mutants, rule, assumptions, sample=None, repl
         "traces_accepted": len(accepted), "evaluations": len(traces), "distinct_nontrivial": nontrivial,
         "programs_with_oracle_declining": len(unknown_ids), "impl_model_bound": not (drift_ids & accepted),
         "drift_cases": len(drift_ids & accepted),
-        "rule": rule, "families": notes, "model_mutants_rejected": killed, "exhaustive": all(n["programs_model_checked"] == n["programs_replayed"] for n in notes),
+        "rule": rule, "families": notes, "model_mutants_rejected": killed,
+        "exhaustive": all(n["programs_model_checked"] == n["programs_replayed"] for n in notes if n["family"] != "random"),
         "samples": [{"prog": exp_by_id[i]["prog"], "meaning": exp_by_id[i]["den"], "observed": by_id[i]["obs"], "trace_ids": by_id[i]["ids"]} for i in s_ids],
         "known_findings_reobserved": verdict.known_hits,
     }
@@ -192,7 +206,7 @@ def c08(tier, seed, replay=None):
                    "nest family: every nesting of depth 2 (and 3) x every mode assignment x every closure pattern (which enclosing variables the "
                    "level's body mentions, own variable to the power 0..2, inner point own / own+enclosing, inner result added or multiplied in); "
                    "fault family: nested differentiation after a caught inner failure; distinct_nontrivial = distinct programs with a defined meaning",
-                   ASSUME, level_lemma=True)
+                   ASSUME, level_lemma=True, random_n=400 if q else 5000)
 
 
 def c07(tier, seed, replay=None):
@@ -260,7 +274,7 @@ def c19(tier, seed, replay=None):
                    "differentiated function, two levels above, at top level, twice in a row) x 2^3 modes x 2 points, followed by nested canary "
                    "differentiations in the same process; all programs of one worker process run in sequence, so every program also runs after the "
                    "failures of its predecessors",
-                   ASSUME, level_lemma=True, write=False)
+                   ASSUME, level_lemma=True, write=False, random_n=300 if tier == "quick" else 3000)
     # the same property one level down: a VJP function whose call was abandoned by a raising rule is called again (RevAbs sessions)
     from checks import rev
     v2, cov2 = rev.c19_sessions(tier, seed)
